@@ -545,6 +545,11 @@ func genWork(seed uint64) (twork, simrt.FaultPlan, simrt.MapPolicy, uint64) {
 		w.Existing, w.Overwrite = "previous", true
 	case x < 7:
 		w.Existing, w.Overwrite = "same-tables", true
+		if r.Chance(0.5) {
+			// the most realistic earlier content: what the tool itself wrote when it was run
+			// before on an older state of the source
+			w.Existing = "earlier-run"
+		}
 	case x < 8:
 		w.Existing, w.Overwrite = "truncated", true
 	case x < 9:
@@ -828,6 +833,10 @@ func previousContent(seed uint64) *gpkgh.Source {
 }
 
 type prepared struct {
+	// preTables: user tables of each pre-existing target file (by relative path), to tell a
+	// survivor from a table the tool chose to add
+	preTables        map[string]map[string]bool
+	earlierArgs      []string // earlier-run: command line of the earlier run (run by runOne)
 	dir, src, target string
 	args             []string
 	decoys           map[string]string // relative path -> content hash
@@ -836,7 +845,7 @@ type prepared struct {
 
 func prepare(w *twork, seed uint64, dir string) prepared {
 	os.RemoveAll(dir)
-	p := prepared{dir: dir, decoys: map[string]string{}, expectedFiles: map[string]bool{}}
+	p := prepared{dir: dir, decoys: map[string]string{}, expectedFiles: map[string]bool{}, preTables: map[string]map[string]bool{}}
 	p.target = filepath.Join(dir, "out", filepath.FromSlash(w.TargetRel))
 	if err := os.MkdirAll(filepath.Dir(p.target), 0o755); err != nil {
 		simh.Fatalf("%v", err)
@@ -853,6 +862,8 @@ func prepare(w *twork, seed uint64, dir string) prepared {
 			continue
 		}
 		switch w.Existing {
+		case "earlier-run":
+			// written by runOne through the tool itself (all ids at once), see earlierArgs
 		case "same-tables":
 			// what an earlier run on (an older state of) the same source left: the same table
 			// names and schemas with some rows; if it survived, rows would pile up
@@ -905,7 +916,62 @@ func prepare(w *twork, seed uint64, dir string) prepared {
 	}
 	p.expectedFiles["source.gpkg"] = true
 	p.args = buildArgs(w, p.src, p.target)
+	if w.Existing == "earlier-run" {
+		// an older state of the source: the last spatial table is missing (if there are two or
+		// more), every table has only half of its rows
+		old := gpkgh.Source{SRS: w.Source.SRS}
+		spatial := 0
+		for _, tb := range w.Source.Tables {
+			if tb.Spatial {
+				spatial++
+			}
+		}
+		seen := 0
+		for _, tb := range w.Source.Tables {
+			if tb.Spatial {
+				seen++
+				if spatial >= 2 && seen == spatial {
+					continue
+				}
+			}
+			c := tb
+			c.Rows = c.Rows[:len(c.Rows)/2]
+			old.Tables = append(old.Tables, c)
+		}
+		oldSrc := filepath.Join(dir, "source_old.gpkg")
+		if err := gpkgh.WriteSource(oldSrc, &old); err != nil {
+			simh.Fatalf("older source: %v", err)
+		}
+		p.expectedFiles["source_old.gpkg"] = true
+		ew := *w
+		ew.Overwrite = false
+		var ids []int
+		for _, id := range w.IDs {
+			if w.ExistingMask>>(uint(id)%64)&1 == 1 {
+				ids = append(ids, id)
+			}
+		}
+		if len(ids) > 0 {
+			ew.IDs = ids
+			p.earlierArgs = buildArgs(&ew, oldSrc, p.target)
+		}
+	}
 	return p
+}
+
+// notePreTables reads which user tables the pre-existing target files hold.
+func notePreTables(w *twork, p *prepared) {
+	for _, id := range w.IDs {
+		tp := targetName(p.target, id)
+		rel, _ := filepath.Rel(p.dir, tp)
+		if d, err := gpkgh.ReadFile(tp); err == nil {
+			m := map[string]bool{}
+			for _, t := range d.UserTables {
+				m[t] = true
+			}
+			p.preTables[rel] = m
+		}
+	}
 }
 
 // verify compares what the tool left on disk with the model.
@@ -953,16 +1019,32 @@ func verify(w *twork, p prepared, m modelResult) (*simh.Violation, int) {
 			return &simh.Violation{Class: "file/unreadable", Message: fmt.Sprintf("target for tile matrix %d: %v", id, err)}, files
 		}
 		files++
-		var want []string
+		want := map[string]bool{}
 		for _, e := range m.tables[id] {
-			want = append(want, e.Name)
+			want[e.Name] = true
 		}
-		sort.Strings(want)
-		if strings.Join(want, ",") != strings.Join(d.UserTables, ",") {
-			return &simh.Violation{Class: "file/tables", Message: fmt.Sprintf("target for tile matrix %d holds tables %v, want exactly %v (pre-existing content: %s, overwrite: %v)", id, d.UserTables, want, w.Existing, w.Overwrite)}, files
+		have := map[string]bool{}
+		for _, t := range d.UserTables {
+			have[t] = true
 		}
-		if len(d.Tables) != len(want) {
-			return &simh.Violation{Class: "file/tables", Message: fmt.Sprintf("target for tile matrix %d registers %d geometry tables, want %d", id, len(d.Tables), len(want))}, files
+		rel, _ := filepath.Rel(p.dir, tp)
+		for t := range want {
+			if !have[t] {
+				return &simh.Violation{Class: "file/tables", Message: fmt.Sprintf("target for tile matrix %d lacks table %q (holds %v; pre-existing content: %s, overwrite: %v)", id, t, d.UserTables, w.Existing, w.Overwrite)}, files
+			}
+		}
+		for _, t := range d.UserTables {
+			if want[t] {
+				continue
+			}
+			if p.preTables[rel][t] {
+				return &simh.Violation{Class: "file/tables", Message: fmt.Sprintf("target for tile matrix %d still holds table %q of the pre-existing file (pre-existing content: %s, overwrite: %v)", id, t, w.Existing, w.Overwrite)}, files
+			}
+			if _, isFeatureTable := d.Tables[t]; isFeatureTable {
+				return &simh.Violation{Class: "file/tables", Message: fmt.Sprintf("target for tile matrix %d registers a feature table %q that the source does not have", id, t)}, files
+			}
+			// any other extra table (bookkeeping of the tool, a copied attributes table) is
+			// not forbidden by the property
 		}
 		for _, e := range m.tables[id] {
 			if mis := gpkgh.CheckTable(d, e, srsByID[e.SRSID]); mis != nil {
@@ -1007,6 +1089,22 @@ func runOne(t *testing.T, w *twork, fp simrt.FaultPlan, mp simrt.MapPolicy, mapS
 		rr.probes.Inc("skipped-tms:" + w.TMS)
 		return rr
 	}
+	if p.earlierArgs != nil {
+		// the earlier run: the tool itself, free-running, on the older state of the source
+		if mode == "binary" {
+			cmd := exec.Command(binary, p.earlierArgs[1:]...)
+			cmd.Dir = dir
+			if outb, err := cmd.CombinedOutput(); err != nil {
+				rr.violation = &simh.Violation{Class: "binary/exit", Message: fmt.Sprintf("the earlier run of the texel binary failed: %v\n%s", err, lastLines(string(outb), 12))}
+				return rr
+			}
+		} else {
+			os.Args = p.earlierArgs
+			main()
+		}
+		rr.probes.Inc("earlier-run-of-the-tool-left-the-pre-existing-targets")
+	}
+	notePreTables(w, &p)
 	switch mode {
 	case "sim":
 		simrt.SetMapOrder(mp, mapSeed)
@@ -1021,8 +1119,14 @@ func runOne(t *testing.T, w *twork, fp simrt.FaultPlan, mp simrt.MapPolicy, mapS
 			os.Args = p.args
 			main()
 		}, func(stacks string) {
-			if onFatal != nil {
-				onFatal(&simh.Violation{Class: "tool/goroutine-leak", Message: stacks})
+			// goroutines still alive when main() has returned are no concern of this property
+			// (the process would simply exit). If one of them sits on a timer, though, the
+			// bubble can never be left: verify now, report, and end this engine process.
+			if strings.Contains(stacks, "[sleep") || strings.Contains(stacks, "time.") {
+				v, _ := verify(w, p, m)
+				if onFatal != nil {
+					onFatal(v)
+				}
 			}
 		})
 		simrt.SetMapOrder(simrt.MapNative, 0)
@@ -1034,7 +1138,7 @@ func runOne(t *testing.T, w *twork, fp simrt.FaultPlan, mp simrt.MapPolicy, mapS
 		case rr.sim.Outcome != "ok":
 			simh.Fatalf("toolsim: simulator outcome %q %s", rr.sim.Outcome, rr.sim.Detail)
 		case leak != "":
-			rr.violation = &simh.Violation{Class: "tool/goroutine-leak", Message: leak}
+			rr.probes.Inc("goroutines-alive-after-main-returned(not-a-C13-matter)")
 		}
 	case "free":
 		os.Args = p.args
@@ -1167,7 +1271,16 @@ func TestVerifToolsim(t *testing.T) {
 			}
 			tapeSink = simh.StreamReplay(job, func() interface{} { return mk(runResult{}) })
 			onFatal = func(v *simh.Violation) {
-				out.Line(map[string]interface{}{"t": "violation", "seed": seed, "replay": mk(runResult{violation: v})})
+				if v != nil && !job.IsKnown(v.Class) {
+					out.Line(map[string]interface{}{"t": "violation", "seed": seed, "replay": mk(runResult{violation: v})})
+				} else {
+					// nothing wrong with this run, but the process cannot go on: report what was covered
+					sum.Runs++
+					sum.SeedNext = seed + 1
+					sum.Notes = append(sum.Notes, "engine process ended early: a goroutine of the tool stays alive on a timer after main() returned")
+					simh.WriteDigests(job.Out+".digests", digests.Slice())
+					out.Line(sum)
+				}
 				os.Exit(0)
 			}
 			wantSample := len(sum.Samples) < job.Samples && len(w.Source.Tables) <= 2 && rowsOf(&w) >= 2 && rowsOf(&w) <= 6
@@ -1224,6 +1337,9 @@ func TestVerifToolsim(t *testing.T) {
 			var trace []string
 			ci := i
 			onFatal = func(v *simh.Violation) {
+				if v == nil {
+					v = &simh.Violation{}
+				}
 				out.Line(map[string]interface{}{"t": "cand", "cand": ci, "class": v.Class, "message": v.Message})
 				os.Exit(0)
 			}
